@@ -43,7 +43,7 @@ type config struct {
 	Prot      string   `json:"protection"` // on, off, paused, pause-expired
 	Filtering bool     `json:"global_filtering"`
 	Client    string   `json:"client"`   // none, global, own-on, own-off
-	Services  string   `json:"services"` // none, global, global-paused, client, client-paused
+	Services  string   `json:"services"` // none, global, global-paused, client, client-paused, and global[-paused]+client[-paused]
 }
 
 type request struct {
@@ -136,17 +136,18 @@ func effective(c *config, from string) eff {
 			e.filtering = false
 		}
 	}
-	switch c.Services {
-	case "global":
-		e.services = true
-	case "client":
-		e.services = isClient
-	case "client-paused", "global-paused", "none":
-		e.services = false
+	// Services names the global list and, after "+", the client's own list:
+	// a client with its own (paused or not) service list does not use the
+	// global one at all; everybody else uses the global one.
+	glob, own := c.Services, ""
+	if i := strings.Index(c.Services, "+"); i >= 0 {
+		glob, own = c.Services[:i], c.Services[i+1:]
+	} else if strings.HasPrefix(c.Services, "client") {
+		glob, own = "none", c.Services
 	}
-	// A client with its own (paused or not) service list does not use the global one.
-	if isClient && (c.Services == "client" || c.Services == "client-paused") {
-		e.services = c.Services == "client"
+	e.services = glob == "global"
+	if isClient && own != "" {
+		e.services = own == "client"
 	}
 	return e
 }
@@ -413,18 +414,18 @@ func buildSpec(c *config) *srv.Spec {
 		case "own-off":
 			cs.UseOwnSettings, cs.FilteringEnabled = true, false
 		}
-		switch c.Services {
-		case "client":
+		switch {
+		case strings.HasSuffix(c.Services, "client"):
 			cs.UseOwnBlockedServices, cs.BlockedServices = true, []string{svcID}
-		case "client-paused":
+		case strings.HasSuffix(c.Services, "client-paused"):
 			cs.UseOwnBlockedServices, cs.BlockedServices, cs.ServicesPaused = true, []string{svcID}, true
 		}
 		sp.Clients = []srv.ClientSpec{cs}
 	}
-	switch c.Services {
-	case "global":
+	switch {
+	case c.Services == "global" || strings.HasPrefix(c.Services, "global+"):
 		sp.GlobalServices = []string{svcID}
-	case "global-paused":
+	case strings.HasPrefix(c.Services, "global-paused"):
 		sp.GlobalServices, sp.GlobalServicesPaused = []string{svcID}, true
 	}
 	return sp
@@ -608,8 +609,8 @@ func run(c *lib.Ctx) {
 				for _, prot := range []string{"on", "off", "paused", "pause-expired"} {
 					for _, flt := range []bool{true, false} {
 						for _, cl := range []string{"none", "global", "own-on", "own-off"} {
-							for _, sv := range []string{"none", "global", "global-paused", "client", "client-paused"} {
-								if cl == "none" && strings.HasPrefix(sv, "client") {
+							for _, sv := range []string{"none", "global", "global-paused", "client", "client-paused", "global+client-paused", "global-paused+client", "global+client"} {
+								if cl == "none" && strings.Contains(sv, "client") {
 									continue
 								}
 								idx++
